@@ -490,6 +490,36 @@ func corrC13(c *corrCtx) {
 			}
 		}
 	}
+	// whites of every magnitude: "every positive reference white" includes whites whose components are
+	// tiny (down to subnormal float32 values) or huge.  Lab depends on the ratios only, so the white still
+	// maps to (100, 0, 0), exact small multiples stay neutral, and colours given relative to the white
+	// follow the CIE definition.
+	for wi, bw := range whites[:4] {
+		for _, e := range []int{-100, -120, -126, -127, -130, -140, -146, 60, 100} {
+			sc := float32(math.Ldexp(1, e))
+			w := ciexyz.Color{X: bw.X * sc, Y: bw.Y * sc, Z: bw.Z * sc}
+			if !(w.X > 0 && w.Y > 0 && w.Z > 0) || !finite32(w.X) || !finite32(w.Y) || !finite32(w.Z) {
+				continue
+			}
+			lab := emitToLab(c, "scaled-white", w, w)
+			if lab.L != 100 || lab.A != 0 || lab.B != 0 {
+				c.direct(fmt.Sprintf("C13/white-scaled/w%d/2^%d", wi, e), "the reference white does not map to (100, 0, 0) (white with very small or very large components)",
+					map[string]interface{}{"white": []float32{w.X, w.Y, w.Z}, "white_bits": []string{fmt.Sprintf("%08x", fb(w.X)), fmt.Sprintf("%08x", fb(w.Y)), fmt.Sprintf("%08x", fb(w.Z))}, "got": []float32{lab.L, lab.A, lab.B}})
+			}
+			for _, k := range []float32{2, 3, 4} {
+				m := ciexyz.Color{X: w.X * k, Y: w.Y * k, Z: w.Z * k}
+				l2 := emitToLab(c, "scaled-grey", m, w)
+				if math.Abs(float64(l2.A)) > 2e-3 || math.Abs(float64(l2.B)) > 2e-3 {
+					c.direct(fmt.Sprintf("C13/grey-scaled/w%d/2^%d/%v", wi, e, k), "a multiple of the white does not give a* = b* = 0 (white with very small or very large components)",
+						map[string]interface{}{"k": k, "white": []float32{w.X, w.Y, w.Z}, "got": []float32{l2.L, l2.A, l2.B}})
+				}
+			}
+			for i := 0; i < 12; i++ {
+				col := ciexyz.Color{X: w.X * float32(2*r.f64()), Y: w.Y * float32(2*r.f64()), Z: w.Z * float32(2*r.f64())}
+				check("scaled-relative", col, w)
+			}
+		}
+	}
 	c.extra["worst_accuracy"] = worstAcc
 	c.extra["worst_roundtrip"] = worstRT
 }
@@ -605,6 +635,21 @@ func corrC20(c *corrCtx) {
 		case 2: // every luminance free
 			for k := range t.yy {
 				t.yy[k] = float32(0.2 + 2.8*r.f64())
+			}
+		}
+		if len(tris)%7 == 3 {
+			// primaries that carry luminances which happen to add up (in float32, in any order of
+			// summation) to the white's: the matrix is still defined by chromaticities and white alone
+			switch r.intn(4) {
+			case 0:
+				t.yy = [4]float32{0.25, 0.5, 0.25, 1}
+			case 1:
+				t.yy = [4]float32{1, 1, 1, 3}
+			case 2:
+				t.yy = [4]float32{0.5, 0.5, 1, 2}
+			default:
+				a, b, cc := float32(0.2126), float32(0.7152), float32(0.0722)
+				t.yy = [4]float32{a, b, cc, a + b + cc}
 			}
 		}
 		tris = append(tris, t)
